@@ -388,6 +388,48 @@ def rule_classes_partition(ctx):
                     continue
                 n += 1
                 r.check(all(e in mk for e in es), "%s|seed#%d" % (y.id, n), "seed-not-marked", "the seed of a new class is marked as classified (%s)" % " | ".join(show(e)[:60] for e in es), "the argument a new class is opened for is not marked as classified", s.loc())
+    # the converse: an id is marked as classified only in a step that puts it into a class - pushed as a member under the same
+    # conditions, the seed of a class being opened, or a member of a class that exists already
+    from .grounded import inherited_conditions as _ic, _cond_trees as _ct
+
+    for y in bodies:
+        pushes = []
+        seeds_here = set()
+        for s in y.calls():
+            if callee_decl(callee_of(s)) == "alloc::vec::Vec::push" and "usize" in str(callee_of(s).get("substs")) and mod not in str(callee_of(s).get("substs")):
+                pushes.append((set(prov(prog, y, s.node["args"][1])), set(map(repr, _ct(prog, _ic(prog, y, s.bb))))))
+        for s in y.sites():
+            nd = s.node
+            if s.si is not None and nd["k"] == "assign" and nd["rv"]["k"] == "aggregate" and nd["rv"]["agg"].get("kind") == "array" and len(nd["rv"]["ops"]) == 1 and "usize" in str(nd["rv"]["agg"].get("ty")) and nd["dst"]["p"]:
+                # `vec![x]` writes the array through the box pointer; `&[x]` handed to a call is a local array, not a class
+                seeds_here |= set(prov(prog, y, nd["rv"]["ops"][0]))
+        k = 0
+        for st in indexed_stores(prog, y):
+            if not (st.is_bool and st.stores_const(True)):
+                continue
+            idxs = set(prov(prog, y, st.idx))
+            conds = set(map(repr, _ct(prog, _ic(prog, y, st.site.bb))))
+            k += 1
+            anchor = "%s|mark#%d" % (y.id, k)
+            if idxs & seeds_here:
+                continue
+            # members of classes that exist already: the index iterates a class of the class list
+            def _inner(t):
+                while isinstance(t, tuple) and t[0] == "call" and re.search(r"::(iter|into_iter|deref|as_slice|members)$", t[1]) and t[2]:
+                    t = t[2][0]
+                return t
+
+            if all(e[0] == "elem" and isinstance(_inner(e[1]), tuple) and _inner(e[1])[0] == "elem" for e in idxs):
+                continue
+            same = [pc for pv_, pc in pushes if pv_ & idxs]
+            if not same:
+                if all(e[0] == "elem" and not (isinstance(e[1], tuple) and e[1][0] == "agg" and str(e[1][1]).startswith("Range")) for e in idxs):
+                    # the members of a collection computed elsewhere (the grounded / defeated lists that become classes)
+                    continue
+                if pushes or seeds_here:
+                    r.violation(anchor, "marked-without-class", "an id is marked as classified (%s) but not put into any class in that step: no class will ever hold it, and the table maps it to class 0" % " | ".join(show(e)[:60] for e in idxs), st.loc())
+                continue
+            r.check(any(pc <= conds and conds <= pc for pc in same), anchor, "marked-without-class", "marked under the conditions under which it is pushed into the class", "an id is marked as classified under weaker conditions than those under which it is put into the class: a candidate that fails the merge test is marked, joins no class, and the table maps it to class 0", st.loc())
     r.floor(n, 2, "ids put into classes")
     # every argument gets a class: an iteration that opens none is guarded by `already classified`
     loops = dict(F.loops())
@@ -698,6 +740,15 @@ def rule_grounded_seeds(ctx):
                     en = [t for t in subterms(e) if _is_call(t, r"Iterator::enumerate$")]
                     others = [prov(prog, y, a2) for j, a2 in enumerate(cs.node["args"]) if j != k]
                     from_counters = en and any(en[0][2][0] in o for o in others)
+                    extra_f = [t for t in subterms(e) if _is_call(t, r"Iterator::(filter|filter_map|skip|skip_while|take|take_while|step_by)$")]
+                    if from_counters and len(fm) >= 1 and len(extra_f) > 1:
+                        # one adaptor does the zero test (judged below when it is the filter_map); any further one drops seeds
+                        zero_fm = [t for t in fm if t[1].endswith("filter_map")]
+                        others = [t for t in extra_f if t not in zero_fm[:1]]
+                        if zero_fm and others:
+                            n += 1
+                            r.violation(anchor + "|dropped", "seeds-filtered:%s" % others[0][1].rsplit("::", 1)[-1], "the seeds of the grounded class are cut down by a further `%s` after the test of the attacker count: an unattacked argument can be left out of the grounded class" % others[0][1].rsplit("::", 1)[-1], cs.loc())
+                            fm = zero_fm[:1]
                     if len(fm) != 1 or not from_counters:
                         r.ok(anchor, "NOT decided: the seed list is not a filter over the enumerated counters handed to the same call", cs.loc())
                         n += 1
